@@ -62,6 +62,9 @@ def run(ctx):
                            {'store': st, 'stderr_head': p.stderr[:1500]})
                 continue
             raise common.Infra('vh send failed: ' + p.stderr[-1500:])
+        skipped = [l for l in p.stderr.splitlines() if l.startswith('send: skipped:')]
+        if skipped:
+            ctx.notes.append('%s store: %d run(s) void (the session logged itself out during the run, e.g. after a store error): %s' % (st, len(skipped), skipped[0][:200]))
         rows += common.ndjson_read(tp)
     if not rows:
         ctx.cov.update({'states': r['distinct'], 'transitions': r['generated'], 'traces_validated_against_impl': 0, 'samples': ['no run completed']})
